@@ -1,9 +1,16 @@
 (* C15 — Provider stream decoding is lossless and chunking-invariant.
-   Statements only; proofs are in Proofs/SseProofs.v and Proofs/Utf8Proofs.v.
-   `classify` (JSON parse + schema validation of one payload) and the seq offset are universally
-   quantified; FIXED = the code after the two `fix:` commits for S11 (what /repo contains now),
-   UNFIXED = the code before them. *)
-From RipV Require Import Base.Prelude Base.Utf8 Base.Json Model.Sse Proofs.Utf8Proofs Proofs.SseProofs.
+   Statements only; proofs are in Proofs/SseProofs.v, Proofs/SseJsonProofs.v and Proofs/Utf8Proofs.v.
+   The chunking theorems hold for EVERY classification `classify` of payloads and every seq offset.  The
+   content theorems (c15_payload_unchanged, c15_classified_event, c15_kept_as_text, c15_text_is_concat_of_deltas,
+   c15_text_delta_spec, c15_extractor_agrees) are about the executable classification `jclassify A` of
+   Model/SseJson.v: serde_json::from_str as JsonParse.parse + `canon` (BTreeMap objects, number spelling), the
+   nesting bound, the event-name / type mismatch error and the text delta; `A : absfns` holds the three parts
+   that stay abstract (text of serde_json's error message, re-spelling of non-integer number tokens, schema
+   validation) and is universally quantified.  FIXED = the code after the two `fix:` commits for S11 (what
+   /repo contains now), UNFIXED = the code before them. *)
+From RipV Require Import Base.Prelude Base.Utf8 Base.Json Model.Sse Model.SseJson.
+From RipV Require Import Proofs.Utf8Proofs Proofs.SseProofs Proofs.SseJsonProofs.
+From RipV Require Base.JsonParse.
 
 (* the frames depend on the body only: any two partitions into chunks (every split position, inside
    a multi-byte character, between CR and LF, inside a field name, one byte at a time, empty
@@ -41,12 +48,108 @@ Theorem c15_payload_is_joined_data :
 Proof. exact event_payload_is_joined_data. Qed.
 Print Assumptions c15_payload_is_joined_data.
 
+(* "each carrying the payload unchanged": the provider frames of ANY chunked run, paired in order with the
+   server-sent events of the body.  Terminal marker and payloads that are not JSON (or JSON nested too deep to be
+   stored in a frame): raw = the payload = the joined data lines (c15_payload_is_joined_data), code point for code
+   point.  JSON: data = canon (parse payload) — the parse of the text as serde_json::Value — and the canonical print
+   of data parses back to data.  Hypothesis on the abstract float printer: what it writes is a JSON number. *)
+Theorem c15_payload_unchanged :
+  forall (A : absfns) (off : N) (cs : list (list N)),
+  (forall t t', a_fmt_float A t = Some t' -> num_ok t' = true) ->
+  Forall2 (fun (f : frame) (e : pev) =>
+     match f with
+     | FDelta _ _ => False
+     | FProv _ st ev raw data _ _ =>
+       st = pe_kind e /\ ev = pe_event e /\
+       ((st = 0 /\ raw = Some (pe_raw e) /\ data = None /\ pe_raw e = S_DONE)
+        \/ (st = 1 /\ raw = Some (pe_raw e) /\ data = None /\
+            (parse_value_of A (pe_raw e) = None
+             \/ exists v, parse_value_of A (pe_raw e) = Some v /\ (MAX_PAYLOAD_NESTING < json_depth v)%nat))
+        \/ (st = 2 /\ raw = None /\
+            exists j v, JsonParse.parse (pe_raw e) = Some j /\ canon A j = Some v /\ data = Some v
+                        /\ JsonParse.parse (print v) = Some v))
+     end)
+    (filter is_prov (frames_of (jclassify A) FIXED off cs))
+    (upto_done (events_spec (jclassify A) (lossy_text (concat cs)))).
+Proof. exact payload_unchanged. Qed.
+Print Assumptions c15_payload_unchanged.
+
+(* one payload classified as an event: value, round trip, nesting bound, delta, errors = validation errors then the
+   event-name / type mismatch message *)
+Theorem c15_classified_event :
+  forall (A : absfns) (ev : option str) (raw : str) (v : json) (errs rerrs : list str) (dl : option str),
+  (forall t t', a_fmt_float A t = Some t' -> num_ok t' = true) ->
+  jclassify A ev raw = CEvent v errs rerrs dl ->
+  (exists j, JsonParse.parse raw = Some j /\ canon A j = Some v)
+  /\ JsonParse.parse (print v) = Some v
+  /\ (json_depth v <= MAX_PAYLOAD_NESTING)%nat
+  /\ dl = text_delta v
+  /\ errs = fst (a_validate A v) ++ name_mismatch ev v
+  /\ rerrs = snd (a_validate A v).
+Proof. exact jclassify_event. Qed.
+Print Assumptions c15_classified_event.
+
+(* one payload kept as text: serde_json refuses it, or it nests deeper than a frame can store *)
+Theorem c15_kept_as_text :
+  forall (A : absfns) (ev : option str) (raw : str) (errs : list str),
+  jclassify A ev raw = CInvalid errs ->
+  (parse_value_of A raw = None /\ errs = [a_json_err A raw])
+  \/ (exists v, parse_value_of A raw = Some v /\ (MAX_PAYLOAD_NESTING < json_depth v)%nat /\ errs = [nest_msg (json_depth v)]).
+Proof. exact jclassify_invalid. Qed.
+Print Assumptions c15_kept_as_text.
+
+(* the parser only builds number tokens it has checked, so every parsed payload prints to JSON *)
+Theorem c15_parsed_numbers_ok :
+  forall (txt : str) (j : json), JsonParse.parse txt = Some j -> nums_ok j = true.
+Proof. exact parse_nums_ok. Qed.
+Print Assumptions c15_parsed_numbers_ok.
+
+(* derived output text = concatenation of the provider's text deltas: over the provider frames of any chunked run, in
+   order, of the text delta each frame's data holds ... *)
 Theorem c15_text_is_concat_of_deltas :
+  forall (A : absfns) (off : N) (cs : list (list N)),
+  output_text (frames_of (jclassify A) FIXED off cs)
+  = concat (map data_delta (filter is_prov (frames_of (jclassify A) FIXED off cs))).
+Proof. exact text_is_concat_of_data_deltas. Qed.
+Print Assumptions c15_text_is_concat_of_deltas.
+
+(* ... where the text delta of a value is the `delta` string of an object whose `type` is
+   "response.output_text.delta" (the SSE event name plays no part) *)
+Theorem c15_text_delta_spec :
+  forall (v : json) (d : str),
+  text_delta v = Some d <->
+  exists kvs, v = JObj kvs /\ assoc S_TYPE kvs = Some (JStr S_OTD) /\ assoc S_DELTA kvs = Some (JStr d).
+Proof. exact text_delta_spec. Qed.
+Print Assumptions c15_text_delta_spec.
+
+(* the same at event level, for every classification *)
+Theorem c15_text_is_concat_of_event_deltas :
   forall (classify : option str -> str -> cls) (off : N) (cs : list (list N)),
   output_text (frames_of classify FIXED off cs)
   = concat (map delta_of (upto_done (events_spec classify (lossy_text (concat cs))))).
 Proof. exact text_is_concat_of_deltas. Qed.
-Print Assumptions c15_text_is_concat_of_deltas.
+Print Assumptions c15_text_is_concat_of_event_deltas.
+
+(* the library's own reading of the provider frames (stream_transformers::extract_text_deltas: payload `type`, else
+   the frame's event name) gives the same text, provided no payload without a string `type` but with a string `delta`
+   arrives under the event name "response.output_text.delta" ... *)
+Theorem c15_extractor_agrees :
+  forall (A : absfns) (off : N) (cs : list (list N)),
+  Forall (fun e => match pe_data e with
+                   | Some v => pe_event e = Some S_OTD -> get_str S_TYPE v = None -> get_str S_DELTA v = None
+                   | None => True
+                   end)
+         (upto_done (events_spec (jclassify A) (lossy_text (concat cs)))) ->
+  concat (extract_text_deltas (frames_of (jclassify A) FIXED off cs)) = output_text (frames_of (jclassify A) FIXED off cs).
+Proof. exact extractor_agrees. Qed.
+Print Assumptions c15_extractor_agrees.
+
+(* ... and not otherwise (the helper falls back to the event name, EventFrameMapper does not) *)
+Theorem c15_extractor_agrees_unconditional_refuted :
+  exists A off cs,
+    concat (extract_text_deltas (frames_of (jclassify A) FIXED off cs)) <> output_text (frames_of (jclassify A) FIXED off cs).
+Proof. exact extractor_agrees_unconditional_refuted. Qed.
+Print Assumptions c15_extractor_agrees_unconditional_refuted.
 
 (* frame numbering continues from the offset without a gap ... *)
 Theorem c15_seq_contiguous :
@@ -62,6 +165,25 @@ Theorem c15_seq_contiguous_transport_error :
   map fseq fs = iotaN off (length fs) /\ snd (run_pipe classify FIXED off cs (Some h)) = off + nlen fs.
 Proof. exact seq_contiguous_transport_error. Qed.
 Print Assumptions c15_seq_contiguous_transport_error.
+
+(* the seq numbers are u64 in the code (mapper-local `seq += 1`, `frame.seq += seq_offset`, `*seq += frame_count`),
+   unbounded in the model.  No-overflow hypothesis, explicit: while seq_offset + number of frames < 2^64 no addition
+   wraps (release build) or panics (overflow checks), i.e. the unbounded model is exact ... *)
+Theorem c15_seq_no_wrap :
+  forall (classify : option str -> str -> cls) (off : N) (cs : list (list N)) (terr : option str),
+  off + nlen (fst (run_pipe classify FIXED off cs terr)) < TWO64 ->
+  wrap_run (run_pipe classify FIXED off cs terr) = run_pipe classify FIXED off cs terr
+  /\ run_overflows (run_pipe classify FIXED off cs terr) = false.
+Proof. exact seq_no_wrap. Qed.
+Print Assumptions c15_seq_no_wrap.
+
+(* ... and `*seq += frame_count` overflows exactly when it does not hold *)
+Theorem c15_seq_overflow_iff :
+  forall (classify : option str -> str -> cls) (off : N) (cs : list (list N)) (terr : option str),
+  run_overflows (run_pipe classify FIXED off cs terr) = true
+  <-> TWO64 <= off + nlen (fst (run_pipe classify FIXED off cs terr)).
+Proof. exact seq_overflow_iff. Qed.
+Print Assumptions c15_seq_overflow_iff.
 
 (* the SseDecoder alone (library level, text chunks) *)
 Theorem c15_decoder_chunk_invariant :
@@ -105,3 +227,25 @@ Example c15_demo_nontrivial :
   /\ frames_of demo_cls FIXED 5 [firstn 32 demo_body; skipn 32 demo_body] = demo_expected
   /\ events_spec demo_cls (lossy_text demo_body) <> upto_done (events_spec demo_cls (lossy_text demo_body)).
 Proof. exact demo_nontrivial. Qed.
+
+(* non-vacuity of the content theorems: CRLF and LF blocks through the instantiated classification — a text delta with
+   an escape, keys out of order, a duplicate key, a value over two data lines; a name / type mismatch; a payload that
+   is not JSON; a typeless payload under the delta event name; [DONE]; an event after it *)
+Example c15_json_demo :
+  frames_of (jclassify demoA) FIXED 5 [demo2_body] = demo2_expected
+  /\ frames_of (jclassify demoA) FIXED 5 (map (fun b => [b]) demo2_body) = demo2_expected
+  /\ output_text demo2_expected = [104; 233]
+  /\ Forall2 (carries demoA) (filter is_prov demo2_expected)
+       (upto_done (events_spec (jclassify demoA) (lossy_text demo2_body))).
+Proof. exact demo2_nontrivial. Qed.
+
+Example c15_demoA_fmt_ok : forall t t', a_fmt_float demoA t = Some t' -> num_ok t' = true.
+Proof. exact demoA_fmt_ok. Qed.
+
+(* the no-overflow hypothesis is satisfiable at the very top of the range (6 frames from 2^64 - 7), and one more wraps *)
+Example c15_seq_top_of_range :
+  nlen (fst (top_run (TWO64 - 1 - 6))) = 6
+  /\ wrap_run (top_run (TWO64 - 1 - 6)) = top_run (TWO64 - 1 - 6) /\ run_overflows (top_run (TWO64 - 1 - 6)) = false
+  /\ run_overflows (top_run (TWO64 - 6)) = true
+  /\ wrap_run (top_run (TWO64 - 6)) <> top_run (TWO64 - 6).
+Proof. exact seq_top_of_range. Qed.
